@@ -79,10 +79,45 @@ def known_match(stream, line, why):
             return "k odd"
     return None
 
+# ---- every call must build its set from scratch: objects handed out by earlier calls (the set itself, get_single,
+# left_a_minimal, choose_u_for_b) are mutable PauliStrings; editing them in place must not leak into a later call
+def uset_after_edits(line):
+    import random as _r
+    from paulie.application import pauli_compiler as pc
+    from paulie.common.pauli_string_factory import get_single
+    try:
+        _, N, k, sd = line.split(" ")
+        N, k = int(N), int(k)
+        r = _r.Random(f"{N}:{k}:{sd}")
+        def scramble(ps):
+            for p in ps:
+                for _ in range(2):
+                    if len(p) > 0:
+                        p[r.randrange(len(p))] = r.choice("IXYZ")
+        scramble(pc.construct_universal_set(N, k))
+        for n in sorted({k, N - k, N}):
+            if n >= 1:
+                scramble([get_single(n, i, lab) for i in range(n) for lab in "XZ"])
+        scramble(pc.left_a_minimal(k)); scramble([pc.choose_u_for_b(k)])
+        return plist(pc.construct_universal_set(N, k))
+    except Exception as e:
+        return exc_name(e)
+
+def batch_oracle_after_edits(lines, outs):
+    exp = run_model(["uset " + " ".join(l.split(" ")[1:3]) for l in lines])
+    res = []
+    for l, o, e in zip(lines, outs, exp):
+        why = oracle_uset("uset " + " ".join(l.split(" ")[1:3]), o)
+        if not why and o != e:
+            why = (f"construct_universal_set({l.split(' ')[1]},{l.split(' ')[2]}) after in-place edits of objects returned by earlier calls "
+                   f"gives {o[:120]}, a first call gives {e[:120]}")
+        res.append(why)
+    return res
+
 def build_streams(rng, tier):
     h = impl_compiler.handle
     th = tier == "thorough"
-    maxn = 12 if th else 10
+    maxn = 14 if th else 12
     usets = [f"uset {N} {k}" for N in range(-1, maxn + 1) for k in range(-1, N + 2)]
     helpers = [f"lefta {k}" for k in range(-2, maxn + 1)] + [f"chooseu {k}" for k in range(-2, maxn + 1)]
     gens = [f"gen {N} {k}" for N in range(3, CLOSURE_MAX[tier] + 1) for k in range(2, N)]
@@ -97,6 +132,8 @@ def build_streams(rng, tier):
                lambda l, o: oracle_uset(l, o) if l.startswith("uset") else None),
         Stream("universal-set-all-(N,k)", usets, h, oracle_uset, tag=tag_uset,
                nontrivial=lambda l, o: not o.startswith("!")),
+        Stream("set-after-in-place-edits-of-earlier-results", [f"usetre {N} {k} {j}" for N in range(3, 9) for k in range(1, N) for j in range(2)],
+               uset_after_edits, batch_oracle=batch_oracle_after_edits, model=False, tag=lambda l, o: "after-edits"),
         Stream("helpers", helpers, h, None, tag=lambda l, o: l.split(" ")[0] + ":" + ("err" if o.startswith("!") else "ok")),
         Stream("generation-by-verified-closure", gens, lambda l: h("uset" + l[3:]), batch_oracle=batch_oracle_gen, tag=tag_gen, model=False),
         Stream("generation-by-classifier", algs, h, oracle_alg, tag=tag_gen, model=False),
